@@ -228,6 +228,10 @@ class Ctx:
                       os.path.join(COQ, "Consts.v")])
         if rc != 0:
             raise CheckError("gen_consts failed: " + out)
+        # decision logic re-translated from the C source (clang AST -> Gallina): coq/*Gen.v
+        rc, out = sh([sys.executable, os.path.join(VERIF, "tools", "gen_trans.py"), REPO, COQ])
+        if rc != 0:
+            raise CheckError("gen_trans failed: " + out)
 
     def coq_make(self, targets, timeout=3000):
         """full .vo build of the given targets (and their dependencies); returns (ok, output)"""
